@@ -309,6 +309,8 @@ struct Utf16TailGuard<R> {
     maybe_utf8_bom: bool,
     /// Shared with `ChunkedChars`: the stream starts with a UTF-8 byte-order mark.
     source_has_utf8_bom: Rc<Cell<bool>>,
+    /// The reader has reported its end.
+    ended: bool,
 }
 
 impl<R: Read> Utf16TailGuard<R> {
@@ -323,6 +325,7 @@ impl<R: Read> Utf16TailGuard<R> {
             utf16: None,
             half: None,
             pending_high: false,
+            ended: false,
         }
     }
 
@@ -366,21 +369,29 @@ impl<R: Read> Utf16TailGuard<R> {
 
 impl<R: Read> Read for Utf16TailGuard<R> {
     fn read(&mut self, buf: &mut [u8]) -> io::Result<usize> {
-        let n = self.inner.read(buf)?;
-        if n == 0 {
-            if !buf.is_empty() && self.utf16.is_some() && (self.half.is_some() || self.pending_high)
-            {
-                return Err(io::Error::new(
-                    io::ErrorKind::UnexpectedEof,
-                    "unexpected EOF in middle of UTF-16 character",
-                ));
-            }
+        if buf.is_empty() {
             return Ok(0);
         }
-        if self.head_len < 2 || self.utf16.is_some() || self.maybe_utf8_bom {
-            self.observe(&buf[..n]);
+        // The end is reported by the reader once and by this adapter from then on: the decoder
+        // and the buffer above ask again after `Ok(0)`, and a reader may block for ever when it
+        // is polled once more (a terminal after Ctrl-D, a FIFO).
+        if !self.ended {
+            let n = self.inner.read(buf)?;
+            if n > 0 {
+                if self.head_len < 2 || self.utf16.is_some() || self.maybe_utf8_bom {
+                    self.observe(&buf[..n]);
+                }
+                return Ok(n);
+            }
+            self.ended = true;
         }
-        Ok(n)
+        if self.utf16.is_some() && (self.half.is_some() || self.pending_high) {
+            return Err(io::Error::new(
+                io::ErrorKind::UnexpectedEof,
+                "unexpected EOF in middle of UTF-16 character",
+            ));
+        }
+        Ok(0)
     }
 }
 
